@@ -228,6 +228,18 @@ PROPS["C03"] = {
     "assumptions": [TIME_RANGE, "a client's internal goroutines (mast flush workers) run in a fixed order; only the order of requests between clients is explored", "engine-only: schedules are not replayed natively"],
 }
 
+PROPS["C08"] = {
+    "harnesses": [
+        {"pkg": "sqlite", "dir": "sqlite", "entry": "VerifH_C08_roundtrip", "extra": [("s3db_export", ".")], "no_native": True,
+         "quick": {"params": "maxlen=2", "workers": 16, "timeout": 1200},
+         "thorough": {"params": "maxlen=4", "workers": 16, "timeout": 3600}},
+    ],
+    "bounds": {"quick": "one value in key or non-key position: any int64, any non-NaN float64 bit pattern (incl. -0.0, infinities), TEXT/BLOB of 0..2 symbolic bytes, NULL; written through the sqlite layer, committed, read back by the writer and by another connection after re-open",
+               "thorough": "TEXT/BLOB 0..4 bytes"},
+    "outside": "protobuf wire encoding (opaque codec with proto3 presence rules), UTF-8 validation, cgo marshalling; merge and vacuum fidelity are covered by C02's value comparison and C16's codec harness",
+    "assumptions": [TIME_RANGE, "riyazali's ResultText passes a NULL pointer for the empty string (modelled: SQLite then returns NULL)", "engine-only harness (package sqlite)"],
+}
+
 # Properties not (yet) claimed, each with the reason.  Kept current by hand.
 NOT_APPLICABLE = {
     "C%02d" % i: "check not built yet in this session (breadth-first build order, DESIGN §9); no claim is made" for i in range(1, 21)
